@@ -50,18 +50,35 @@ Proof.
   - inversion H. apply Z.eqb_refl.
 Qed.
 
-(* Python expressions built by the operator macros.  PArg i is the compiled
-   i-th operand of the macro call (an arbitrary expression: it has an outcome
-   and its evaluation is observable in the trace). *)
-Inductive pexpr :=
-| PArg (i : nat)
+(* Python expressions built by the operator macros, over a type L of leaves:
+   a leaf is a compiled operand of the macro call (L = nat: the i-th operand,
+   an arbitrary expression with an outcome, whose evaluation is observable in
+   the trace; L = a value domain: an operand that is already a value). *)
+Inductive pexpr (L : Type) :=
+| PLeaf (l : L)
 | PConst (k : pconst)
-| PUn (u : uop) (e : pexpr)
-| PBin (l : pexpr) (m : mop) (r : pexpr)
-| PCmp (l : pexpr) (rest : list (cop * pexpr)).
+| PUn (u : uop) (e : pexpr L)
+| PBin (l : pexpr L) (m : mop) (r : pexpr L)
+| PCmp (l : pexpr L) (rest : list (cop * pexpr L)).
+Arguments PLeaf {L} _.
+Arguments PConst {L} _.
+Arguments PUn {L} _ _.
+Arguments PBin {L} _ _ _.
+Arguments PCmp {L} _ _.
 
-(* AugAssign(target, op, value); the target is an opaque store location *)
-Inductive pstmt := PAug (target : nat) (m : mop) (value : pexpr).
+(* AugAssign(target, op, value) *)
+Inductive pstmt (L : Type) := PAug (target : L) (m : mop) (value : pexpr L).
+Arguments PAug {L} _ _ _.
+
+(* a documentation row of pyops.hy ("0", "+x", "1 / x", "True"): an expression in the one variable x *)
+Inductive dexpr := DX | DConst (k : pconst) | DUn (u : uop) (e : dexpr) | DBin (l : dexpr) (m : mop) (r : dexpr).
+Fixpoint dinst {L} (x : pexpr L) (d : dexpr) : pexpr L :=
+  match d with
+  | DX => x
+  | DConst k => PConst k
+  | DUn u e => PUn u (dinst x e)
+  | DBin l m r => PBin (dinst x l) m (dinst x r)
+  end.
 
 (* one @pattern_macro decorator of an operator handler *)
 Inductive handler := HUnary | HCompare | HMaths | HAug.
@@ -90,7 +107,7 @@ Inductive hx :=
 
 (* (defop name [p1 .. pk #* rest] [doc rows] body) *)
 Record docrow := { doc_pyop : option opfn;          (* operator of "x {pyop} y" when a binary or n-ary row is printed *)
-                   doc_nullary : option pexpr; doc_unary : option pexpr;
+                   doc_nullary : option dexpr; doc_unary : option dexpr;
                    doc_binary : bool; doc_nary : bool; doc_agg : option string }.
 Record defop := { f_name : string; f_params : list string; f_rest : option string;
                   f_doc : docrow; f_body : hx }.
